@@ -16,6 +16,9 @@ package main
 
 import (
 	"bufio"
+	"bytes"
+	"crypto/rand"
+	"encoding/hex"
 	"encoding/json"
 	"fmt"
 	"io"
@@ -187,6 +190,15 @@ func main() {
 			tr.Steps = append(tr.Steps, sl)
 		}
 		sc.Steps = nil
+	}
+	for i := range sc.Steps {
+		// "@RANDOM@" in what a step sends is replaced by 16 fresh hex digits:
+		// a plugin whose answers differ from conversation to conversation
+		if bytes.Contains(sc.Steps[i].Send, []byte("@RANDOM@")) {
+			var rnd [8]byte
+			rand.Read(rnd[:])
+			sc.Steps[i].Send = bytes.ReplaceAll(sc.Steps[i].Send, []byte("@RANDOM@"), []byte(hex.EncodeToString(rnd[:])))
+		}
 	}
 	for _, st := range sc.Steps {
 		if st.DelayMs > 0 {
